@@ -18,6 +18,7 @@
 #include <immintrin.h>
 #include <setjmp.h>
 #include <signal.h>
+#include <sys/time.h>
 
 #include "msc.h"
 
@@ -506,7 +507,8 @@ void Lower::fix(MOp& m) {
   if (ex.on[EX_AND0] && m.k == M_ALU && m.sub == A_AND && m.o[1].t == T_IMM && m.o[1].imm == 0 && is_reg(m.o[0])) { m.sub = A_MOV; P.n_excl[EX_AND0]++, P.n_excluded++; }
   if (ex.on[EX_WOPART] && m.k == M_ALU && (m.sub == A_XOR || m.sub == A_SUB) && same01 && m.w < 32) { m.sub = A_MOV; m.o[1] = Opnd::I(0); P.n_excl[EX_WOPART]++, P.n_excluded++; }
   if (ex.on[EX_RO32] && m.k == M_ALU && (m.sub == A_AND || m.sub == A_OR) && same01 && m.w == 32 && ty(m.o[0].r) == 64) { m.w = 64; P.n_excl[EX_RO32]++, P.n_excluded++; }
-  if (ex.on[EX_RMNARROW] && m.w == 32 && is_reg(m.o[0]) && ty(m.o[0].r) == 64) {
+  // (an instruction whose operands are all the same virtual register is never reg->mem patched)
+  if (ex.on[EX_RMNARROW] && m.w == 32 && is_reg(m.o[0]) && ty(m.o[0].r) == 64 && !(same01 && m.k == M_ALU)) {
     bool rw = (m.k == M_ALU && (m.sub <= A_XOR || m.sub == A_XCHG || m.sub == A_XADD)) || m.k == M_UN || m.k == M_SHIFT || (m.k == M_BT && m.sub != B_BT) || m.k == M_CMPXCHG;
     if (rw) {
       bool all64 = true;
@@ -1264,10 +1266,12 @@ template<class F> int guarded(F&& f) {
   lseek(g_cap_fd, 0, SEEK_SET);
   dup2(g_cap_fd, 2);
   struct sigaction sa, old; memset(&sa, 0, sizeof sa); sa.sa_handler = abort_handler; sa.sa_flags = SA_NODEFER; sigemptyset(&sa.sa_mask);
-  sigaction(SIGABRT, &sa, &old);
+  struct sigaction old2; struct itimerval tv, tv0; memset(&tv, 0, sizeof tv); memset(&tv0, 0, sizeof tv0); tv.it_value.tv_sec = 4;
+  sigaction(SIGABRT, &sa, &old); sigaction(SIGVTALRM, &sa, &old2);
   int sig = sigsetjmp(g_abort_jmp, 1);
-  if (!sig) { g_abort_armed = 1; f(); g_abort_armed = 0; }
-  sigaction(SIGABRT, &old, nullptr);
+  if (!sig) { g_abort_armed = 1; setitimer(ITIMER_VIRTUAL, &tv, nullptr); f(); g_abort_armed = 0; }
+  setitimer(ITIMER_VIRTUAL, &tv0, nullptr);
+  sigaction(SIGABRT, &old, nullptr); sigaction(SIGVTALRM, &old2, nullptr);
   fflush(stderr);
   dup2(g_real_stderr, 2);
   g_abort_text.clear();
@@ -1280,6 +1284,11 @@ template<class F> int guarded(F&& f) {
   return sig;
 }
 // "file:line" of an ASMJIT_ASSERT message, for failure keys
+std::string assert_site(const std::string& t);
+std::string abort_key(const char* arch, int sig, const std::string& text) {
+  if (sig == SIGVTALRM) return std::string("compiler-hang:") + arch;   // no termination within 4 s of CPU time
+  return std::string("asmjit-assert:") + arch + ":" + assert_site(text);
+}
 std::string assert_site(const std::string& t) {
   size_t a = t.find("Assertion failed at "); if (a == std::string::npos) return "unknown";
   a += 20; size_t b = t.find(" (line ", a); if (b == std::string::npos) return "unknown";
@@ -1822,7 +1831,7 @@ static void check_x64(const Prog& P, JitRuntime& rt, const CpuFeatures& feat, in
   build_x86(B, P, Arch::kX64, feat, pressure, &rt);
   if (G.dump) { printf("%s", show_prog(P).c_str()); printf("--- x64 (pressure %d) ---\n%s\n", pressure, format_all(&B.cc).c_str()); }
   auto fail = [&](const std::string& key, const std::string& head, bool listing) { out.fail = true; out.key = key; out.head = head; if (listing) out.listing = format_all(&B.cc); };
-  if (B.err != Error::kOk) { fail(B.abort_sig ? "asmjit-assert:x64:" + assert_site(B.abort_text) : std::string("compile-error-on-valid-program:x64:") + DebugUtils::error_as_string(B.err), B.describe(), B.stage != "emit" && !B.abort_sig); return; }
+  if (B.err != Error::kOk) { fail(B.abort_sig ? abort_key("x64", B.abort_sig, B.abort_text) : std::string("compile-error-on-valid-program:x64:") + DebugUtils::error_as_string(B.err), B.describe(), B.stage != "emit" && !B.abort_sig); return; }
   out.post = B.post;
   if (!B.post.virt_left.empty()) { fail("virtual-reg-left:x64", "after RA: " + B.post.virt_left, true); return; }
   static Input in, exp, act;
@@ -1936,7 +1945,7 @@ void vh_run(const vh::Case& c, vh::Ctx& ctx) {
     std::unique_ptr<BuiltX86> B32(new BuiltX86());
     build_x86(*B32, P, Arch::kX86, feat, P.pressure, nullptr);
     ctx.cls("x86_32_builds");
-    if (B32->err != Error::kOk) { if (!report(ctx, B32->abort_sig ? "asmjit-assert:x86:" + assert_site(B32->abort_text) : std::string("compile-error-on-valid-program:x86:") + DebugUtils::error_as_string(B32->err), B32->describe(), P, (B32->stage == "emit" || B32->abort_sig) ? nullptr : &B32->cc)) return; }
+    if (B32->err != Error::kOk) { if (!report(ctx, B32->abort_sig ? abort_key("x86", B32->abort_sig, B32->abort_text) : std::string("compile-error-on-valid-program:x86:") + DebugUtils::error_as_string(B32->err), B32->describe(), P, (B32->stage == "emit" || B32->abort_sig) ? nullptr : &B32->cc)) return; }
     else if (!B32->post.virt_left.empty()) { if (!report(ctx, "virtual-reg-left:x86", "after RA: " + B32->post.virt_left, P, &B32->cc)) return; }
     else if (B32->post.inserted()) ctx.cls("x86_32_ra_inserted");
   }
@@ -1947,7 +1956,7 @@ void vh_run(const vh::Case& c, vh::Ctx& ctx) {
     if (BA->em && BA->em->n_excluded) ctx.known_excluded("excluded-a64-immediate-stack-argument");
     ctx.cls("a64_builds"); if (BA->em && BA->em->n_lists) ctx.cls("a64_has_register_list", uint64_t(BA->em->n_lists));
     if (G.dump) printf("--- a64 ---\n%s\n", format_all(&BA->cc).c_str());
-    if (BA->err != Error::kOk) { if (!report(ctx, BA->abort_sig ? "asmjit-assert:a64:" + assert_site(BA->abort_text) : std::string("compile-error-on-valid-program:a64:") + DebugUtils::error_as_string(BA->err), BA->describe(), P, (BA->stage == "emit" || BA->abort_sig) ? nullptr : &BA->cc)) return; }
+    if (BA->err != Error::kOk) { if (!report(ctx, BA->abort_sig ? abort_key("a64", BA->abort_sig, BA->abort_text) : std::string("compile-error-on-valid-program:a64:") + DebugUtils::error_as_string(BA->err), BA->describe(), P, (BA->stage == "emit" || BA->abort_sig) ? nullptr : &BA->cc)) return; }
     else {
       if (!BA->post.virt_left.empty()) { if (!report(ctx, "virtual-reg-left:a64", "after RA: " + BA->post.virt_left, P, &BA->cc)) return; }
       if (!BA->post.bad_list_inst.empty()) { if (!report(ctx, "list-not-consecutive:a64:" + BA->post.bad_list_inst, "after RA: " + BA->post.bad_list_text, P, &BA->cc)) return; }
